@@ -240,6 +240,15 @@ def run(ctx):
     m = common.run_dispatch(ctx, ('harness.c14', 'HistConsumer'), jobs[0], what='ContextDb S->C states')
     ctx.add_merged(m)
     ctx.log('S->C exhaustive: %d histories replayed x3 kinds' % m['n'])
+    # 3b. longer histories over a narrow universe (one named category, definitions {} or {x}, no filtering choices):
+    #     anonymous categories that define nothing, frozen and extended again
+    nsteps = 4 if quick else 5
+    deep = dict(main='ContextDb', cfg=cfg(cats=('A',), steps=nsteps, maxobj=3, emit='states', ns='{}, {"x"}', keep='{}',
+                                         excl='{}', view='VIEW ViewLast'),
+                tlc_kw=dict(timeout=1500, workers=1, xmx='6g'))
+    md = common.run_dispatch(ctx, ('harness.c14', 'HistConsumer'), deep, what='ContextDb S->C states, narrow universe, <= %d steps' % nsteps)
+    ctx.add_merged(md)
+    ctx.log('S->C narrow universe, <= %d steps: %d histories replayed x3 kinds' % (nsteps, md['n']))
     # 4. random long histories
     n_sim = 100 if quick else 1500   # TLC checks (prints) every generated successor: ~900 records per trace
     sim = dict(main='ContextDb', cfg=cfg(steps=8 if quick else 10, maxobj=3, emit='states', view=''),
